@@ -137,6 +137,17 @@ theorem clientLoop_same (acts : List RespAct) :
     obtain ⟨h3, h4⟩ := clientAct_same r act
     exact ⟨h1.trans h3, h2.trans h4⟩
 
+theorem download_same (s : Stack) (a : Nat) (r : Resp) :
+    (download s a r).1.http = r.http ∧ (download s a r).1.slots = r.slots := by
+  unfold download
+  split
+  · exact ⟨rfl, rfl⟩
+  · split
+    · exact ⟨rfl, rfl⟩
+    · split
+      · exact ⟨rfl, rfl⟩
+      · split <;> exact ⟨rfl, rfl⟩
+
 /-- The response `Client.roundTrip` returns has slots that agree with its http response. -/
 theorem clientRoundTrip_agrees (s : Stack) (a : Nat) : AgreesO s (clientRoundTrip s a).resp := by
   unfold clientRoundTrip
@@ -148,10 +159,14 @@ theorem clientRoundTrip_agrees (s : Stack) (a : Nat) : AgreesO s (clientRoundTri
     obtain ⟨f1, f2, f3⟩ := exchange_facts s a
     have hp := readParse_agrees s (exchange s a).1 f1 f2 f3
     obtain ⟨c1, c2⟩ := clientLoop_same (s.clientAt a) 0
+      (download s a (match (parseResp s (autoRead s (exchange s a).1).1).ret with
+        | some e => ({ (parseResp s (autoRead s (exchange s a).1).1).resp with err := some e } : Resp)
+        | none => (parseResp s (autoRead s (exchange s a).1).1).resp)).1
+    obtain ⟨d1, d2⟩ := download_same s a
       (match (parseResp s (autoRead s (exchange s a).1).1).ret with
         | some e => ({ (parseResp s (autoRead s (exchange s a).1).1).resp with err := some e } : Resp)
         | none => (parseResp s (autoRead s (exchange s a).1).1).resp)
-    refine hp.of_eq (c1.trans ?_) (c2.trans ?_) <;> split <;> rfl
+    refine hp.of_eq ((c1.trans d1).trans ?_) ((c2.trans d2).trans ?_) <;> split <;> rfl
 
 theorem runWrappers_agrees (s : Stack) (a : Nat) (core : RT) (hc : AgreesO s core.resp) (ws : List (Nat × WAct)) :
     AgreesO s (runWrappers a core ws).resp := by
@@ -313,24 +328,32 @@ theorem stopOut_final (s : Stack) (a : Nat) (prev : Option Resp) (hp : ∀ r, pr
         | none => simpa using h2
 
 theorem doLoop_final (s : Stack) :
-    ∀ rem a prev, (∀ r, prev = some r → r.slots = {}) →
-      ∀ r, (doLoop Fixes.all s rem a prev).resp = some r → Final s r := by
-  intro rem
-  induction rem with
-  | zero =>
-    intro a prev hp
-    simp only [doLoop, (attempt_some Fixes.all rfl rfl s a prev).1, Bool.false_eq_true, if_false]
-    exact stopOut_final s a prev hp
-  | succ rem ih =>
+    ∀ fuel a prev, (∀ r, prev = some r → r.slots = {}) →
+      ∀ r, (doLoop Fixes.all s fuel a prev).resp = some r → Final s r := by
+  intro fuel
+  induction fuel with
+  | zero => intro a prev hp r hr; simp [doLoop, exhaustedOut] at hr
+  | succ fuel ih =>
     intro a prev hp
     simp only [doLoop, (attempt_some Fixes.all rfl rfl s a prev).1, Bool.false_eq_true, if_false]
     split
     · exact stopOut_final s a prev hp
     · split
-      · split
-        · intro r hr; simp [crashOut] at hr
-        · exact ih _ _ (by intro r hr; cases hr; rfl)
       · exact stopOut_final s a prev hp
+      · split
+        · split
+          · intro r hr; simp [crashOut] at hr
+          · rename_i hret _ _ _ r0 hr0
+            split
+            · -- the wait met a done context: the attempt's response, with the context's error
+              intro r hr
+              simp only [waitOut, Option.some.injEq] at hr
+              subst hr
+              rcases attempt_agrees s a prev with h | ⟨_, _, h3⟩
+              · left; exact (h r0 hr0).of_eq rfl rfl
+              · exact absurd h3 hret
+            · exact ih _ _ (by intro r hr; cases hr; rfl)
+        · exact stopOut_final s a prev hp
 
 theorem callDo_final (s : Stack) : ∀ r, (callDo Fixes.all s).resp = some r → Final s r := by
   intro r hr
